@@ -71,7 +71,7 @@ fn base_world() -> Base {
     token::fund_ata(&mut w.svm, &lp, &sol_mint, 20_000_000_000_000);
     token::fund_ata(&mut w.svm, &lp, &usdc_mint, 3_000_000_000_000);
     let d = w
-        .create_deposit(lp, market, 10_000_000_000_000, 1_500_000_000_000, None, None, &[], &[], 0)
+        .create_deposit(lp, market, 800_000_000_000, 700_000_000_000, None, None, &[], &[], 0)
         .unwrap_or_else(|(e, _)| panic!("bootstrap: create_deposit {e:?}"));
     w.execute_deposit(d, true).unwrap_or_else(|(e, _)| panic!("bootstrap: execute_deposit {e:?}"));
     w.close_deposit(lp, d).unwrap_or_else(|(e, _)| panic!("bootstrap: close_deposit {e:?}"));
@@ -84,7 +84,7 @@ fn base_world() -> Base {
     // Two position orders so that the market holds claimable (receiver) fees for `claim_fees`.
     token::fund_ata(&mut w.svm, &users[0], &usdc_mint, 1_000_000_000_000);
     for (size, collateral) in [(40_000u128, 8_000u64), (25_000, 6_000)] {
-        let mut req = OrderReq::new(OrderKind::MarketIncrease, market, true, false);
+        let mut req = OrderReq::new(OrderKind::MarketIncrease, market, false, false);
         req.size_delta_value = size * UNIT;
         req.initial_collateral_delta_amount = collateral * 1_000_000;
         let o = w.create_order(users[0], &req).unwrap_or_else(|(e, _)| panic!("bootstrap: create_order {e:?}"));
@@ -353,7 +353,7 @@ fn op_claim(base: &Base, w: &mut World, bk: &mut BankModel, owner: Pubkey, rng: 
                 }
                 m.nontrivial(&sig);
             }
-            if m.wants_sample() && any_paid && m.counter("sampled_claims") < 6 && pre_bal.len() >= 2 {
+            if m.wants_sample() && any_paid && m.counter("sampled_claims") < 2 && pre_bal.len() >= 2 && pre_remaining > g {
                 m.count("sampled_claims");
                 m.sample(wit("sample claim", json!({"shard": cx.shard, "history": cx.hist})));
             }
@@ -733,7 +733,7 @@ pub fn run(args: &Args) -> Option<i32> {
     mon.assume("only legacy SPL-token mints are used as treasury tokens (the world builder creates no Token-2022 mints)");
     mon.assume("bank balances come from deposit_to_treasury_vault after the receiver vault was funded by state injection (fund_ata) or by the real claim_fees");
     let shards = args.scale(64, 512);
-    let hist_per_shard = args.scale(10, 24);
+    let hist_per_shard = args.scale(25, 30);
     let seed = args.seed;
     run_shards(&mut mon, args.threads, shards, |shard, m| {
         let base = base_world();
